@@ -3,31 +3,31 @@ package spv
 // Per-opcode result-type / operand-type relations.
 
 var (
-	rTypeResult  = rule("type.result", "the result type of an instruction belongs to the class its opcode requires")
+	rTypeResult     = rule("type.result", "the result type of an instruction belongs to the class its opcode requires")
 	rTypeOperandRel = rule("type.operand-relation", "operand types relate to the result type as the opcode requires (class, width, component count, equality)")
 	rTypeOperandVal = rule("type.operand-value", "operands are values (have a type), not types / labels / functions")
-	rTypeUnsigned = rule("type.unsigned-result", "OpUDiv / OpUMod / OpConvertFToU operate on types with Signedness 0 as the specification demands")
-	rTypeSelect  = rule("type.select", "OpSelect: objects have the result type; the condition is a bool scalar, or a bool vector of the same size (required for vectors before 1.4)")
-	rTypeLoad    = rule("mem.load-type", "OpLoad result type equals the pointee type of its pointer operand")
-	rTypeStore   = rule("mem.store-type", "OpStore object type equals the pointee type of its pointer operand")
-	rTypeChain   = rule("mem.access-chain", "OpAccessChain: indices are integers, struct indices in-range constants, result is a pointer to the walked type in the same storage class")
-	rTypeArrLen  = rule("mem.array-length", "OpArrayLength: result u32, operand points to a struct whose indexed (last) member is a runtime array")
-	rTypeCopyMem = rule("mem.copy-memory", "OpCopyMemory operands are pointers to the same type")
-	rTypeCall    = rule("call.signature", "OpFunctionCall argument count / types and result type match the callee's OpTypeFunction")
-	rTypeReturn  = rule("return.type", "OpReturnValue value type equals the function return type; OpReturn only in void functions")
-	rTypeComposite = rule("composite.shape", "OpCompositeConstruct / Extract / Insert / VectorShuffle / dynamic vector ops are consistent with the composite types")
-	rTypeBranch  = rule("branch.condition", "OpBranchConditional condition is a bool scalar; OpSwitch selector an integer scalar")
-	rTypeAtomic  = rule("atomic.types", "atomic instructions operate on a pointer to a 32/64-bit integer (or float for load/store/exchange) scalar; value and result have the pointee type; scope and semantics are 32-bit integer constants")
-	rAtomicClass = rule("atomic.storage-class", "atomic pointers are in Uniform, Workgroup, Image, StorageBuffer, PhysicalStorageBuffer or TaskPayloadWorkgroupEXT (Vulkan)")
-	rTypeBarrier = rule("barrier.operands", "barrier scope / semantics operands are 32-bit integer constants")
-	rTypeExtInst = rule("extinst.types", "GLSL.std.450 operand and result types follow the instruction's signature")
-	rExtInstSet  = rule("extinst.set", "OpExtInst set operand is an OpExtInstImport result")
+	rTypeUnsigned   = rule("type.unsigned-result", "OpUDiv / OpUMod / OpConvertFToU operate on types with Signedness 0 as the specification demands")
+	rTypeSelect     = rule("type.select", "OpSelect: objects have the result type; the condition is a bool scalar, or a bool vector of the same size (required for vectors before 1.4)")
+	rTypeLoad       = rule("mem.load-type", "OpLoad result type equals the pointee type of its pointer operand")
+	rTypeStore      = rule("mem.store-type", "OpStore object type equals the pointee type of its pointer operand")
+	rTypeChain      = rule("mem.access-chain", "OpAccessChain: indices are integers, struct indices in-range constants, result is a pointer to the walked type in the same storage class")
+	rTypeArrLen     = rule("mem.array-length", "OpArrayLength: result u32, operand points to a struct whose indexed (last) member is a runtime array")
+	rTypeCopyMem    = rule("mem.copy-memory", "OpCopyMemory operands are pointers to the same type")
+	rTypeCall       = rule("call.signature", "OpFunctionCall argument count / types and result type match the callee's OpTypeFunction")
+	rTypeReturn     = rule("return.type", "OpReturnValue value type equals the function return type; OpReturn only in void functions")
+	rTypeComposite  = rule("composite.shape", "OpCompositeConstruct / Extract / Insert / VectorShuffle / dynamic vector ops are consistent with the composite types")
+	rTypeBranch     = rule("branch.condition", "OpBranchConditional condition is a bool scalar; OpSwitch selector an integer scalar")
+	rTypeAtomic     = rule("atomic.types", "atomic instructions operate on a pointer to a 32/64-bit integer (or float for load/store/exchange) scalar; value and result have the pointee type; scope and semantics are 32-bit integer constants")
+	rAtomicClass    = rule("atomic.storage-class", "atomic pointers are in Uniform, Workgroup, Image, StorageBuffer, PhysicalStorageBuffer or TaskPayloadWorkgroupEXT (Vulkan)")
+	rTypeBarrier    = rule("barrier.operands", "barrier scope / semantics operands are 32-bit integer constants")
+	rTypeExtInst    = rule("extinst.types", "GLSL.std.450 operand and result types follow the instruction's signature")
+	rExtInstSet     = rule("extinst.set", "OpExtInst set operand is an OpExtInstImport result")
 )
 
 type tinfo struct {
-	t     *Type
-	sc    *Type // scalar component type (for scalars: itself)
-	n     uint32 // vector component count; 1 for scalars; 0 for non scalar/vector types
+	t  *Type
+	sc *Type  // scalar component type (for scalars: itself)
+	n  uint32 // vector component count; 1 for scalars; 0 for non scalar/vector types
 }
 
 func (v *validator) ti(id uint32) tinfo {
